@@ -37,6 +37,7 @@ func replay(cat *catalogue, path string) {
 			Scenario *relScenario `json:"scenario"`
 			Pathmix  *pmScenario  `json:"pathmix"`
 			Dispatch *dspScenario `json:"dispatch"`
+			Alloc    *relScenario `json:"allocator_placement"`
 			Chase    *chaseCase   `json:"chase"`
 		} `json:"witness"`
 	}
@@ -44,9 +45,11 @@ func replay(cat *catalogue, path string) {
 		fmt.Println("cannot parse replay:", err)
 		os.Exit(2)
 	}
-	if f.Witness.Pathmix != nil || f.Witness.Chase != nil || f.Witness.Dispatch != nil { // path-mixing / chase / dispatch layers
+	if f.Witness.Pathmix != nil || f.Witness.Chase != nil || f.Witness.Dispatch != nil || f.Witness.Alloc != nil { // path-mixing / chase / dispatch layers
 		rec := &printRec{want: f.Key}
-		if f.Witness.Dispatch != nil {
+		if f.Witness.Alloc != nil {
+			runAllocPlacement(rec, f.Witness.Alloc)
+		} else if f.Witness.Dispatch != nil {
 			runDispatch(rec, f.Witness.Dispatch)
 		} else if f.Witness.Pathmix != nil {
 			runPathmix(rec, cat, f.Witness.Pathmix)
@@ -264,6 +267,12 @@ func main() {
 		})
 	}
 
+	// allocator placement: the release kernels dispatched by the real command processor (alloc.go)
+	allocs := allocScenarios(c)
+	if os.Getenv("C07_SKIP_ALLOC") == "" {
+		vlib.Parallel(len(allocs), 0, func(i int) { runAllocPlacement(c, allocs[i]) })
+	}
+
 	// fourth layer: end-to-end pointer-chasing kernels, timing vs emulation vs host (chase.go)
 	chases := canonicalChases()
 	nCh := c.N(120, 2000)
@@ -298,6 +307,8 @@ func main() {
 			"dispatch layer: case = scenario (both register files of a real compute unit filled with a pattern, 1..5 resident wavefronts with seeded footprints, then 2..6 wavefronts dispatched through the real " +
 			"WfDispatcherImpl.DispatchWf with seeded enable bits / id levels / V3 and V5 code objects; both files compared byte by byte around every dispatch: only the cells the ABI initialises may change, with the ABI's values; " +
 			"every second dispatch is repeated in the emulation compute unit), non-trivial = scenario without deviation; " +
+			"allocator-placement layer: case = the release kernels launched concurrently (1-, 2-, 3- and 4-wavefront work-groups, different register counts) through a real cp.CommandProcessor onto the real compute unit; " +
+			"register ranges of simultaneously resident wavefronts taken from the MapWGReq trace must be disjoint and no register of a live wavefront may change; non-trivial = scenario without deviation; " +
 			"decode-history layer (runs first, sequentially): case = instruction stream decoded on a long-lived decoder per architecture (64-bit uses of vcc/exec/SGPR pairs before and after 32-bit uses of their halves, " +
 			"constants between them) and executed by the real ALUs on both stores; the expected cells of every access come from the encoding (ISA width), not from the operand object; every operand object is snapshotted at decode and re-compared after every later decode; " +
 			"non-trivial = stream without deviation; " +
@@ -334,6 +345,8 @@ func main() {
 			"dsp.scenarios": int64(len(dsps)) * 9 / 10, "dsp.dispatches": int64(2 * len(dsps)), "dsp.dispatches_with_sreg_offset_ne_vreg_offset": int64(2 * len(dsps)),
 			"dsp.dispatches_with_id_level_2": int64(len(dsps)) / 2, "dsp.dispatches_onto_simd_with_2plus_residents": int64(len(dsps)), "dsp.dispatches_v5": int64(len(dsps)) / 10,
 			"dsp.emu_initialisations_compared": int64(len(dsps)), "dsp.init_cells_verified": int64(100 * len(dsps)),
+			"alloc.scenarios": int64(len(allocs)) * 9 / 10, "alloc.work_groups_mapped": int64(15 * len(allocs)), "alloc.maps_with_fragmented_sgpr_file": int64(3 * len(allocs)),
+			"alloc.maps_with_groups_of_different_wavefront_counts_resident": int64(8 * len(allocs)), "alloc.range_pairs_checked": int64(500 * len(allocs)), "alloc.dumps_judged": int64(20 * len(allocs)),
 			"dh.histories": int64(len(dhs)), "dh.instructions_decoded": int64(150 * len(dhs)), "dh.instructions_executed": int64(300 * len(dhs)),
 			"dh.operand_objects_rechecked": int64(20000 * len(dhs)), "dh.half_accesses_after_64bit_decode": int64(40 * len(dhs)),
 			"dh.direct_operand_reads": int64(200 * len(dhs)), "dh.same_encoding_redecoded": int64(5 * len(dhs)),
